@@ -44,9 +44,54 @@ def seqCase (capS body : String) : String :=
       let (outs, c) := runSeq c0 ops []
       s!"{c0.capacity}|{";".intercalate outs}|map={showMap c.cache c.lruList}"
 
+/- `trie <cap>|sn <mode> <khex> <vhex>;gn <mode> <khex>;sv …;gv …`  wrapper sequence on a
+   TrieInMemoryCache whose node cache has capacity <cap>.  <mode> ∈ f|s|m says how the harness
+   passes the key (fresh slice / shared scratch buffer / scratch buffer scribbled over after the
+   call); the model ignores it: the cache is keyed by the key's bytes at call time.
+   → results joined by `;` (`nil` or hex), then `|vlen=<entries of the value cache>`
+   `defcap <n>` → `T`/`F`: after n distinct SetNode on NewTrieInMemoryCache, is the first still there -/
+def showBytesRes (n : Nat) : String :=
+  match decBytes n with
+  | some b => hex b
+  | none => "nil"
+
+def parseTOp (s : String) : Option TOp :=
+  match words s with
+  | ["sn", _, k, v] => do let k ← ofHex? k; let v ← ofHex? v; pure (TOp.setn k v)
+  | ["gn", _, k] => (ofHex? k).map TOp.getn
+  | ["sv", _, k, v] => do let k ← ofHex? k; let v ← ofHex? v; pure (TOp.setv k v)
+  | ["gv", _, k] => (ofHex? k).map TOp.getv
+  | _ => none
+
+def trieSeq (t : TrieCache) : List TOp → List String → List String × TrieCache
+  | [], acc => (acc.reverse, t)
+  | op :: ops, acc =>
+    let (r, t1) := tstep t op
+    let rs := match op with | .setn _ _ => "_" | .setv _ _ => "_" | _ => showBytesRes r
+    trieSeq t1 ops (rs :: acc)
+
+def trieCase (capS body : String) : String :=
+  match capS.toNat? with
+  | none => "bad-op"
+  | some cap =>
+    let opsS := if body.isEmpty then [] else body.splitOn ";"
+    match opsS.mapM parseTOp with
+    | none => "bad-op"
+    | some ops =>
+      let (outs, t) := trieSeq (tnew cap) ops []
+      s!"{";".intercalate outs}|vlen={t.value.length}"
+
 def step (line : String) : String :=
   match words line with
   | "race" :: _ => "ok"
+  | ["defcap", n] =>
+    match n.toNat? with
+    | some n => if n > defaultNodeCacheMaxElements then "F" else "T"
+    | none => "bad-op"
+  | "trie" :: _ =>
+    match (line.drop 5).toString.splitOn "|" with
+    | [capS, body] => trieCase capS body
+    | _ => "bad-op"
   | "table" :: _ =>
     -- the lock table the harness extracted from the CURRENT source is on the line: decide it
     match line.splitOn "|" with
